@@ -296,7 +296,7 @@ fn rand_smiles(t: &Tables, rng: &mut Rng, budget: &mut usize, depth: usize, open
 }
 
 fn mutate(rng: &mut Rng, s: &str) -> String {
-    let alphabet: Vec<char> = "CNOcn()[].=#$:/\\-+%@H0123456789*lrBFSPIsea \u{e9}\u{663}\u{ff11}\u{b2}".chars().collect();
+    let alphabet: Vec<char> = "CNOcn()[].=#$:/\\-+%@H0123456789*lrBFSPIsea \n\r\t\u{0}\u{e9}\u{663}\u{ff11}\u{b2}".chars().collect();
     let mut cs: Vec<char> = s.chars().collect();
     if cs.is_empty() { return alphabet[rng.below(alphabet.len())].to_string() }
     let i = rng.below(cs.len());
@@ -322,8 +322,26 @@ fn enumerate_strings<W: Write>(alphabet: &[&str], max_len: usize, out: &mut W) {
     }
 }
 
+/// every prefix of `s` followed by one probe character (line terminators, blanks, NUL, DEL, non-ASCII, a
+/// letter and a punctuation mark that start nothing): the first offending character at every position
+fn probe_prefixes<W: Write>(s: &str, out: &mut W) {
+    const PROBES: &[char] = &['\n', '\r', '\t', ' ', '\u{0}', '\u{7f}', '\u{e9}', '\u{2028}', 'x', '!', ')', ']'];
+    let cs: Vec<char> = s.chars().collect();
+    for i in 0..=cs.len() {
+        let p: String = cs[..i].iter().collect();
+        for c in PROBES {
+            let mut q = p.clone();
+            q.push(*c);
+            read_req(out, &q);
+            if i < cs.len() { q.push(cs[i]); read_req(out, &q) }
+        }
+    }
+}
+
 fn read_suite<W: Write>(t: &Tables, thorough: bool, rng: &mut Rng, out: &mut W) {
     for s in CORPUS_STRINGS { read_req(out, s) }
+    for s in CORPUS_STRINGS { probe_prefixes(s, out) }
+    for s in ["[13C@TB12H2+2:7]C%12(=O)/C=C\\C%12", "[C@OH25H-15:123]=1.[nH+]$1", "[Cl@SP2-]", "[se@AL1]", "[Uue@@H9++]"] { probe_prefixes(s, out) }
     let a14 = ["C", "N", "c", "(", ")", ".", "=", "/", "1", "2", "%", "[", "]", "*"];
     let a6 = ["C", "(", ")", ".", "1", "="];
     let a8 = ["C", "[", "]", "@", "H", "+", "2", ":"];
@@ -345,6 +363,7 @@ fn read_suite<W: Write>(t: &Tables, thorough: bool, rng: &mut Rng, out: &mut W) 
         if rng.chance(4, 5) { for n in rings.drain(..) { s.push_str(&rand_rnum_text(rng, n)) } }
         read_req(out, &s);
         if rng.chance(1, 2) { let m = mutate(rng, &s); read_req(out, &m) }
+        if i % 100 == 7 && s.chars().count() <= 40 { probe_prefixes(&s, out) }
     }
 }
 
